@@ -83,9 +83,25 @@ pub struct IdentityAnswer {
     pub chall_signature: Vec<u8>,
 }
 impl IdentityAnswer {
+    ///
+    /// the bytes that are signed to answer an identity challenge.
+    /// The challenge is chosen by the remote peer: it is never signed as is, because rows are signed with the same key
+    /// and a challenge equal to the digest of a row would yield a valid signature for that row
+    ///
+    pub fn challenge_message(challenge: &[u8]) -> Vec<u8> {
+        const CHALLENGE_CONTEXT: &[u8] = b"discret identity challenge:";
+        let mut message = Vec::with_capacity(CHALLENGE_CONTEXT.len() + challenge.len());
+        message.extend_from_slice(CHALLENGE_CONTEXT);
+        message.extend_from_slice(challenge);
+        message
+    }
+
     pub fn verify(&self, challenge: &[u8]) -> Result<(), security::Error> {
         let pub_key = security::import_verifying_key(&self.peer.verifying_key)?;
-        pub_key.verify(challenge, &self.chall_signature)?;
+        pub_key.verify(
+            &Self::challenge_message(challenge),
+            &self.chall_signature,
+        )?;
         Ok(())
     }
 }
